@@ -21,14 +21,15 @@ TRUSTED = [
 class Impl:
     """One analysed kernel of the real implementation."""
 
-    def __init__(self, isa, arch, lines, flag_deps, mm=None, start_line=0):
+    def __init__(self, isa, arch, lines, flag_deps, mm=None, start_line=0, sem=None):
         from osaca.parser import ParserAArch64, ParserX86ATT
         from osaca.semantics import ArchSemantics, KernelDG, MachineModel
 
         self.isa, self.arch, self.lines, self.fd = isa, arch, lines, flag_deps
         self.parser = ParserX86ATT() if isa == "x86" else ParserAArch64()
         self.mm = mm if mm is not None else MachineModel(arch=arch)
-        self.sem = ArchSemantics(self.mm)
+        # `sem`: a semantics object that already analysed other kernels (how a library user holds it); else a fresh one
+        self.sem = sem if sem is not None else ArchSemantics(self.mm)
         self.kernel = self.parser.parse_file("\n".join(lines), start_line)
         self.sem.add_semantics(self.kernel)
         self.kdg = KernelDG(self.kernel, self.parser, self.mm, self.sem, timeout=-1, flag_dependencies=flag_deps)
@@ -41,6 +42,9 @@ class Impl:
             d["reanalysed_after_flag_deps"] = self.reanalysed_after
             if getattr(self, "reanalysed_sub", None):
                 d["reanalysed_sub_range"] = self.reanalysed_sub
+        if getattr(self, "shared_history", None):
+            # kernels analysed before this one by the same ArchSemantics object (replayed first)
+            d["earlier_on_same_semantics"] = self.shared_history
         return d
 
     def reanalysed(self, flag_deps, sub=None):
@@ -185,6 +189,20 @@ def kernels_stream(ctx, n, maxlen, kinds=None, real=True, big=False):
             mms[arch] = MachineModel(arch=arch)
         return mms[arch]
 
+    sems = {}
+
+    def sem_of(arch):
+        """every other generated kernel is analysed by ONE long-lived ArchSemantics object per model: nothing of an earlier
+        kernel may leak into a later one (each kernel is judged on its own by the oracles)"""
+        from osaca.semantics import ArchSemantics
+
+        if rng.random() < 0.5:
+            return None
+        if arch not in sems:
+            sems[arch] = ArchSemantics(mm_of(arch))
+        ctx.count("kernels_on_shared_semantics")
+        return sems[arch]
+
     if real:
         ks = corpus.real_kernels()
         if ctx.tier == "quick":
@@ -208,7 +226,13 @@ def kernels_stream(ctx, n, maxlen, kinds=None, real=True, big=False):
         lines, meta = gen_kernel(rng, isa, maxlen, rng.choice(kinds) if kinds else None)
         fd = rng.random() < 0.4
         try:
-            yield Impl(isa, arch, lines, fd, mm_of(arch)), {"source": "generated", "meta": meta}
+            shared = sem_of(arch)
+            im_ = Impl(isa, arch, lines, fd, mm_of(arch), sem=shared)
+            if shared is not None:
+                hist = sems.setdefault("hist:" + arch, [])
+                im_.shared_history = [list(h) for h in hist[-3:]]
+                hist.append((lines, fd))
+            yield im_, {"source": "generated", "meta": meta}
         except Exception as e:  # noqa
             ctx.count("impl_exceptions")
             ctx.violation("analysis of a generated kernel raised %s: %s" % (type(e).__name__, e),
